@@ -461,6 +461,15 @@ def obligations(tier: str):
     obs.append(Obligation("fit.options", make_fit_harness(), bounds="fit_circuit driver: method %r x weight %r x num_procs {1,3}; the worker is a stub" % (METHOD_OPTS, WEIGHT_OPTS),
                           functions=[fit.fit_circuit, fit._convert_intermediate_result], stubs=["_fit_process returns a fixed-shape result; Pool.imap keeps submission order"],
                           expect_reach=["fit"], max_paths=100000))
+    from . import c11
+    import pyimpspec.analysis.zhit.smoothing as sm
+    import pyimpspec.analysis.zhit.smoothing.modified_sinc as ms
+    import pyimpspec.analysis.zhit.smoothing.whittaker_henderson as wh
+    for smoothing in ("modsinc", "whithend"):
+        for npts, n in ((3, 2), (3, 3), (8, 8), (15, 12)):
+            obs.append(Obligation("zhit.smooth.short.%s.%d.%d" % (smoothing, npts, n), c11.make_smooth_harness(smoothing, npts, 2, n, only_completes=True),
+                                  bounds="the real %s smoother with num_points=%d on a spectrum of only %d points (symbolic linear data): completes with one value per point" % (smoothing, npts, n),
+                                  functions=[sm._smooth_phase, ms._smooth, ms._extend_data, wh._smooth], expect_reach=["smoothing"], mode="fresh"))
     for o in obs:
         o.replay = o.harness
     return obs
